@@ -2,7 +2,7 @@ TK = ['Teakra::Teakra::' + f for f in ('ProgramRead', 'ProgramWrite', 'DataRead'
 MI = ['MemoryInterface_' + f for f in ('ProgramRead', 'ProgramWrite', 'DataRead', 'DataWrite', 'DataReadA32', 'DataWriteA32', 'MMIORead', 'MMIOWrite')]
 U = lambda e: {'unwind': 24}
 def fn(f, entry, npost=1):
-    d = {'id': f, 'entry': entry, 'enforce': [f], 'expect_classes': {'postcondition': npost}, 'min_obligations': 3, 'timeout': 300}
+    d = {'id': f, 'entry': entry, 'enforce': [f], 'expect_classes': {'postcondition': npost}, 'min_obligations': 3, 'timeout': 600, 'solver': 'cadical'}
     d.update(U(entry)); return d
 PLAN = {
     'property': 'C11',
